@@ -1006,6 +1006,12 @@ impl SctpTransport {
         SctpLinkStats::from_transport(self)
     }
 
+    /// True while the run loop has never been entered: no cleanup guard exists yet, so
+    /// nothing will announce the end of the channels if the runner is dropped unpolled.
+    pub(crate) fn run_loop_never_entered(&self) -> bool {
+        *self.inner.state.lock() == SctpState::New
+    }
+
     pub fn close(&self) {
         // Mark state as Closed so blocked senders (flow-control wait loop) can
         // bail out instead of waiting forever for window credit.
